@@ -225,6 +225,7 @@ type socksWorld struct {
 	reply    chan []byte  // what the hostile listener answers next (after reading once)
 	egress   *socks5.Server
 	hostileU *net.UDPConn
+	dgramSrv *socks5.Server // server placement, datagram-mode UDP association
 }
 
 func newSocksWorld(seed int64) *socksWorld {
@@ -297,6 +298,7 @@ func newSocksWorld(seed int64) *socksWorld {
 	}
 	w.egress, _ = socks5.New(&socks5.Config{AllowLoopbackDestination: true, HandshakeTimeout: 300 * time.Millisecond, Egress: eg})
 	w.hostileU, _ = net.ListenUDP("udp4", &net.UDPAddr{IP: net.IPv4(127, 0, 0, 1)})
+	w.dgramSrv, _ = socks5.New(&socks5.Config{AllowLoopbackDestination: true, HandshakeTimeout: 300 * time.Millisecond, UDPAssociateMode: socks5.UDPAssociateModeDatagram})
 	return w
 }
 
@@ -331,8 +333,19 @@ func finish(cli net.Conn, done chan struct{}) string {
 	}
 }
 
-// honestConnect: greeting, CONNECT to the echo listener, one echo.
-func (w *socksWorld) honestConnect(srv *socks5.Server) (bool, string) {
+// honestConnect: greeting, CONNECT to the echo listener, one echo.  The handshake timeouts of the servers are short (they bound the
+// hostile units); on a loaded machine an honest attempt can miss one, so the victim counts as refused only if three attempts fail.
+func (w *socksWorld) honestConnect(srv *socks5.Server) (ok bool, note string) {
+	for try := 0; try < 3; try++ {
+		if ok, note = w.honestConnectOnce(srv); ok {
+			return true, ""
+		}
+		time.Sleep(200 * time.Millisecond)
+	}
+	return false, note
+}
+
+func (w *socksWorld) honestConnectOnce(srv *socks5.Server) (bool, string) {
 	cli, done := w.serve(srv)
 	defer finish(cli, done)
 	go cli.Write([]byte{5, 1, 0})
@@ -433,6 +446,56 @@ func (w *socksWorld) run(u *sunit) (note string) {
 		case <-time.After(700 * time.Millisecond):
 			note = "honest datagram after it not answered"
 		}
+		if s := finish(cli, done); s != "" {
+			note += "; " + s
+		}
+	case "datagram-to-relay", "user-datagram-to-client":
+		// a UDP association whose relay socket takes datagrams straight from the network: datagram mode on a server-placement
+		// Server, or the client-placement Server of the chain (its socket feeds the tunnel to the real server behind it)
+		data = bytesOf(m, sinkPort, w.r)
+		e.Hex = hexHead(data)
+		semit(e)
+		srv := w.dgramSrv
+		if u.World == "user-datagram-to-client" {
+			srv = w.client
+		}
+		cli, done := w.serve(srv)
+		go cli.Write([]byte{5, 1, 0})
+		readSome(cli, 300*time.Millisecond)
+		go cli.Write([]byte{5, 3, 0, 1, 0, 0, 0, 0, 0, 0})
+		r10 := make([]byte, 10)
+		cli.SetReadDeadline(time.Now().Add(2 * time.Second))
+		if _, err := io.ReadFull(cli, r10); err != nil || r10[1] != 0 {
+			note = fmt.Sprintf("associate failed %v %v", r10, err)
+			finish(cli, done)
+			return
+		}
+		cli.SetReadDeadline(time.Time{})
+		relay := &net.UDPAddr{IP: net.IPv4(127, 0, 0, 1), Port: int(r10[8])<<8 | int(r10[9])}
+		uc, err := net.ListenUDP("udp4", &net.UDPAddr{IP: net.IPv4(127, 0, 0, 1)})
+		if err != nil {
+			finish(cli, done)
+			return "listen: " + err.Error()
+		}
+		hd := append([]byte{0, 0, 0, 1, 127, 0, 0, 1, byte(sinkPort >> 8), byte(sinkPort)}, []byte("before-hostile")...)
+		uc.WriteToUDP(hd, relay) // the relay learns the user's address from an honest datagram
+		uc.WriteToUDP(data, relay)
+		copy(hd[10:], []byte("after--hostile"))
+		uc.WriteToUDP(hd, relay)
+		got := 0
+		buf := make([]byte, 65536)
+		for i := 0; i < 2; i++ {
+			uc.SetReadDeadline(time.Now().Add(500 * time.Millisecond))
+			n, _, err := uc.ReadFromUDP(buf)
+			if err != nil {
+				break
+			}
+			if strings.HasSuffix(string(buf[:n]), "-hostile") {
+				got++
+			}
+		}
+		uc.Close()
+		note = fmt.Sprintf("honest datagrams around it answered: %d of 2", got)
 		if s := finish(cli, done); s != "" {
 			note += "; " + s
 		}
